@@ -143,6 +143,37 @@ pub fn explore(ctx: &Context, sys: &TransitionSystem, cfg: &ReachCfg) -> Result<
         step_memo: Default::default(),
     };
     let init = initial_states(ctx, sys)?;
+    // btor2 reading of a state without a next function: its value is unconstrained from step 1 on
+    // (the reader turns such a state into an input when it has no init either). `step` keeps the value;
+    // here every other value is added as a successor as well.
+    let mut free_fields: Vec<(u32, u32)> = vec![];
+    {
+        let mut shift = 0u32;
+        for st in &sys.states {
+            let b = bits_of_type(sym_type(ctx, st.symbol));
+            if st.next.is_none() {
+                free_fields.push((shift, b));
+            }
+            shift += b;
+        }
+    }
+    let free_bits: u32 = free_fields.iter().map(|f| f.1).sum();
+    let expand = |succ: u64, out: &mut FxHashSet<u64>| {
+        if free_bits == 0 {
+            out.insert(succ);
+            return;
+        }
+        for k in 0..(1u64 << free_bits) {
+            let mut v = succ;
+            let mut kk = k;
+            for (shift, b) in free_fields.iter() {
+                let mask = ((1u64 << b) - 1) << shift;
+                v = (v & !mask) | ((kk & ((1u64 << b) - 1)) << shift);
+                kk >>= b;
+            }
+            out.insert(v);
+        }
+    };
     let mut frontier: FxHashSet<u64> = init.iter().map(|x| x.0).collect();
     let mut dead = false;
     for depth in 0..=cfg.max_depth {
@@ -176,7 +207,7 @@ pub fn explore(ctx: &Context, sys: &TransitionSystem, cfg: &ReachCfg) -> Result<
                         bads.insert(k);
                     }
                 }
-                next.insert(succ);
+                expand(succ, &mut next);
             }
         }
         if any_constraint_sat && !dead {
